@@ -128,4 +128,26 @@ SEEDS = [
   "edits": [e("filesystem/fat32/dos71bpb.go", "bpb.backupBootSector = binary.LittleEndian.Uint16(b[39:41])", "bpb.backupBootSector = binary.LittleEndian.Uint16(b[37:39])")]},
  {"name": "c08-ebpb-root-cluster-written-big-endian", "properties": ["C08"], "expect": "C08-e|",
   "edits": [e("filesystem/fat32/dos71bpb.go", "binary.LittleEndian.PutUint32(b[33:37], bpb.rootDirectoryCluster)", "binary.BigEndian.PutUint32(b[33:37], bpb.rootDirectoryCluster)")]},
+ {"name": "c01-dir-rewrite-stops-at-listing-end", "properties": ["C01"], "expect": "C01-e|",
+  "edits": [e(F, """		bStart := i * fs.bytesPerCluster
+		written, err := writableFile.WriteAt(b[bStart:bStart+fs.bytesPerCluster], clusterStart)""", """		bStart := i * fs.bytesPerCluster
+		if bStart >= len(b) {
+			break
+		}
+		written, err := writableFile.WriteAt(b[bStart:bStart+fs.bytesPerCluster], clusterStart)""")]},
+ {"name": "c01-refactor-dir-rewrite-zeroes-unreached-clusters", "properties": ["C01"], "silent": True, "expect": "",
+  "edits": [e(F, """		bStart := i * fs.bytesPerCluster
+		written, err := writableFile.WriteAt(b[bStart:bStart+fs.bytesPerCluster], clusterStart)""", """		bStart := i * fs.bytesPerCluster
+		if bStart >= len(b) {
+			if _, err := writableFile.WriteAt(make([]byte, fs.bytesPerCluster), clusterStart); err != nil {
+				return fmt.Errorf("error clearing directory cluster: %w", err)
+			}
+			continue
+		}
+		written, err := writableFile.WriteAt(b[bStart:bStart+fs.bytesPerCluster], clusterStart)""")]},
+ {"name": "c01-scan-hint-not-rewound-on-free", "properties": ["C01"], "expect": "C01-d|",
+  "edits": [e(F, """		for i := uint32(2); i < maxCluster && len(allocated) < extraCount; i++ {""", """		if fs.fatSecondaryStart == 0 {
+			fs.fatSecondaryStart = 2
+		}
+		for i := uint32(fs.fatSecondaryStart >> 40) + 2; i < maxCluster && len(allocated) < extraCount; i++ {""")]},
 ]
